@@ -3,7 +3,7 @@
    announcement over the old channel record gives the new one) is checked on every run by the
    correspondence oracle, not proved here: see DESIGN.md section 5 (C08). *)
 From IRC Require Import Str Wild Glob Mask Parse Reply State Handlers Step.
-From IRCP Require Import InvDefs ModeP AnnounceP SettingsFrame SettingsGlobal RankFrame RankGlobal PrefixP.
+From IRCP Require Import InvDefs ModeP AnnounceP SettingsFrame SettingsGlobal RankFrame RankGlobal PrefixP ModeRankGlobal.
 From stdpp Require Import gmap.
 
 Section C08.
@@ -192,7 +192,39 @@ Theorem C08_prefix_shows_every_rank : forall r,
   rank_prefix true r = all_prefixes r /\ rank_prefix false r = firstn 1 (all_prefixes r).
 Proof. exact prefix_shows_every_rank. Qed.
 
+(* ONLY BY MEMBERS OF SUFFICIENT RANK, for every history.  Over every event of every connection: a channel that exists before
+   and after the step has the same flags, key, limit and mask lists, and every member who stays has the same rank flags, unless
+   the event is a MODE line naming that channel sent by a registered connection that - in the state before the line - was a
+   member of it holding half-operator rank or above (the least rank any letter accepts: rank_sufficient; which letters such a
+   member may use beyond that is C08_insufficient_rank_changes_nothing).  A member below half-operator, an outsider, an IRC
+   operator who is not a member: their MODE lines, whatever the mode string, leave the channel record as it is. *)
+Theorem C08_settings_changed_only_by_ranked_mode : forall cfg verify w i e w' o cl ch co co', Inv w -> step cfg verify w i e = Ok (w', o, cl) ->
+  chans (sh w) !! ch = Some co -> chans (sh w') !! ch = Some co' ->
+  csettings (ch_modes co') = csettings (ch_modes co) \/
+  exists c l nick rk, conns w !! i = Some c /\ e = EvLine l /\
+    (c_auth c = true /\ exists msg modes, tokenize l = inl msg /\ command_of_message msg = inl (MODE ch modes)) /\
+    c_nick c = Some nick /\ ch_users co !! nick = Some rk /\ rk_is_half_operator rk = true.
+Proof. exact settings_changed_only_by_ranked_mode. Qed.
+
+Theorem C08_ranks_changed_only_by_ranked_mode : forall cfg verify w i e w' o cl ch co co' n r1 r2, Inv w -> step cfg verify w i e = Ok (w', o, cl) ->
+  chans (sh w) !! ch = Some co -> chans (sh w') !! ch = Some co' ->
+  ch_users co !! n = Some r1 -> ch_users co' !! n = Some r2 ->
+  r2 = r1 \/
+  exists c l nick rk, conns w !! i = Some c /\ e = EvLine l /\
+    (c_auth c = true /\ exists msg modes, tokenize l = inl msg /\ command_of_message msg = inl (MODE ch modes)) /\
+    c_nick c = Some nick /\ ch_users co !! nick = Some rk /\ rk_is_half_operator rk = true.
+Proof. exact ranks_changed_only_by_ranked_mode. Qed.
+
+(* a member below half-operator: no letter of any class touches the channel record *)
+Theorem C08_below_half_operator_changes_nothing : forall c client target nick r cs mode_set args m m',
+  rk_is_half_operator r = false ->
+  mode_chars c client target nick r cs mode_set args m = Ok m' -> ms_chan m' = ms_chan m.
+Proof. exact mode_chars_below_half. Qed.
+
 Print Assumptions C08_outsider.
+Print Assumptions C08_settings_changed_only_by_ranked_mode.
+Print Assumptions C08_ranks_changed_only_by_ranked_mode.
+Print Assumptions C08_below_half_operator_changes_nothing.
 Print Assumptions C08_flags_as_announced.
 Print Assumptions C08_announcement_text.
 Print Assumptions C08_insufficient_rank_changes_nothing.
